@@ -18,9 +18,10 @@ UNIT_NS = {"delay_ns": 1, "delay_us": 1000, "delay_ms": 1000000}
 
 class Sym:
     """classified event"""
-    __slots__ = ("cls", "ev", "recv", "op", "params", "ns", "extra")
+    __slots__ = ("cls", "ev", "recv", "op", "params", "ns", "extra", "ops")
 
-    def __init__(self, cls, ev, recv=None, op=None, params=None, ns=None, extra=None):
+    def __init__(self, cls, ev, recv=None, op=None, params=None, ns=None, extra=None, ops=None):
+        self.ops = ops
         self.cls = cls
         self.ev = ev
         self.recv = recv
@@ -31,7 +32,8 @@ class Sym:
 
     def __repr__(self):
         if self.cls == "CMD":
-            return "CMD(%s%s)" % ("0x%02X" % self.op if isinstance(self.op, int) else self.op,
+            return "CMD(%s%s)" % ("0x%02X" % self.op if isinstance(self.op, int) else
+                                  ("{" + ",".join("0x%02X" % x for x in sorted(self.ops)) + "}" if self.ops else self.op),
                                   "" if self.params is None else ", %s" % (self.params,))
         if self.cls in ("PIN_LO", "PIN_HI"):
             return "%s(%s)" % (self.cls, self.recv)
@@ -65,7 +67,8 @@ def classify(ev):
             pv = ev.pointees[2] if len(ev.pointees) > 2 else None
             if isinstance(pv, Agg) and pv.kind == "array":
                 params = list(pv.fields)
-            return Sym("CMD", ev, recv, op=op if op is not None else opv, params=params)
+            ops = {op} if op is not None else poly_values(opv.poly() if isinstance(opv, IntV) else None)
+            return Sym("CMD", ev, recv, op=op if op is not None else opv, params=params, ops=ops)
         if m == "send_pixels":
             return Sym("PIX", ev, recv)
         if m == "send_repeated_pixel":
@@ -80,6 +83,29 @@ def classify(ev):
     if t == ITER:
         return Sym("NEXT" if m == "next" else "ITER_" + m.upper(), ev, recv)
     return Sym("OTHER", ev, recv, extra="%s::%s" % (t, m))
+
+
+def poly_values(p, limit=8):
+    """finite set of values of a polynomial over boolean atoms, or None"""
+    if p is None:
+        return None
+    from poly import is_bool_atom
+    atoms = sorted(p.atoms(), key=repr)
+    if len(atoms) > limit or not all(is_bool_atom(a) for a in atoms):
+        return None
+    vals = set()
+    for mask in range(1 << len(atoms)):
+        asg = {a: (mask >> i) & 1 for i, a in enumerate(atoms)}
+        seen = {}
+        ok = True
+        for a, v in asg.items():
+            if a[0] == "var" and v:
+                if a[1] in seen:
+                    ok = False
+                seen[a[1]] = 1
+        if ok:
+            vals.add(p.subst(asg).const_value())
+    return vals
 
 
 def flatten_events(trace, loops=None, out=None):
